@@ -122,17 +122,18 @@ class LDAWrapper(LinearSolver):
         self._last_rtol = 0.
         self.hermitian = hermitian
         self.symmetric = symmetric
+        self._user_hermitian = hermitian
+        self._user_symmetric = symmetric
         self.complex = None
         super().__init__(A)
 
     def update(self, A):
         """ Clear the internal stored solution vectors and update the internal ``solver`` """
-        if self.symmetric is None:
+        # Flags not given by the user are detected again for every new matrix
+        if self._user_symmetric is None:
             self.symmetric = matrix_is_symmetric(A)
 
-        if self.hermitian is None:
-            if not matrix_is_complex(A):
-                self.hermitian = self.symmetric
+        if self._user_hermitian is None:
             self.hermitian = matrix_is_hermitian(A)
 
         self.A = A
